@@ -177,10 +177,20 @@ class FileResponseMixin:
         if unit != "bytes":
             raise MalformedRangeHeader("Only support bytes range")
 
+        def to_int(digits: str) -> int:
+            # A position with more digits than the file size is beyond the file,
+            # whatever its value; don't convert it (int() refuses very long strings).
+            digits = digits.lstrip("0") or "0"
+            if len(digits) > len(str(max_size)):
+                return max_size + 1
+            return int(digits)
+
         ranges = [
             (
-                int(_[0]) if _[0] else max_size - int(_[1]),
-                int(_[1]) + 1 if _[0] and _[1] and int(_[1]) < max_size else max_size,
+                to_int(_[0]) if _[0] else max_size - to_int(_[1]),
+                to_int(_[1]) + 1
+                if _[0] and _[1] and to_int(_[1]) < max_size
+                else max_size,
             )
             for _ in re.findall(r"(\d*)-(\d*)", ranges_str)
             if _ != ("", "")
